@@ -166,13 +166,23 @@ ElemElement::startElement(StylesheetExecutionContext&       executionContext) co
 
         const XalanDOMString::size_type     indexOfNSSep = indexOf(elemName, XalanUnicode::charColon);
 
-        const bool  havePrefix = indexOfNSSep == len ? false : true;
+        bool    havePrefix = indexOfNSSep == len ? false : true;
 
         const GetCachedString   prefixGuard(executionContext);
 
         XalanDOMString&     prefix = prefixGuard.get();
 
-        if (havePrefix == true)
+        if (havePrefix == true &&
+            m_namespaceAVT != 0 &&
+            namespaceLen == 0)
+        {
+            // An empty namespace was requested, so the element is in no
+            // namespace and cannot keep a prefix (ElemAttribute does the same).
+            elemName.erase(0, indexOfNSSep + 1);
+
+            havePrefix = false;
+        }
+        else if (havePrefix == true)
         {
             substring(elemName, prefix, 0, indexOfNSSep);
 
